@@ -58,8 +58,8 @@ impl Property for C13 {
     }
     fn cases(&self, tier: Tier) -> u64 {
         match tier {
-            Tier::Quick => 300000,
-            Tier::Thorough => 4000000,
+            Tier::Quick => 2_000_000,
+            Tier::Thorough => 25_000_000,
         }
     }
     fn decode(&mut self, tape: &TapeVal) -> Case {
